@@ -191,6 +191,9 @@ def gen_case(rng, tier, T_modes=("zero", "pos", "mixed", "named", "empty")):
         t = [(k, v) for k, v in t if len(k) <= 2]
     if rng.random() < 0.06:
         t = [(k, v) for k, v in t if not k]       # variable-free
+    elif uni == 'int' and rng.random() < 0.05:
+        t = [((0,), dy(rng))] + ([((), dy(rng))] if rng.random() < 0.5 else [])       # one variable, index 0
+        labs = [0]
     upd = []
     if kind and t and rng.random() < 0.12:
         upd = [(rng.choice(t)[0], F(0))]          # stale variables
